@@ -5,7 +5,10 @@ CHECK = {'level': 'model_checking',
  'rule': 'for n in 1..N and every multiset of m=n+1 request kinds {read, write, denied, leased read, lookup-self, '
          'token create} presenting the same use-limited token: stateless DFS over all interleavings at '
          'storage-operation granularity (blocked-lock aware) up to the preemption bound on a real Core booted from a '
-         'snapshot; non-trivial = distinct (scenario, observable outcome)',
+         'snapshot; final-use scenarios: n-1 lease-generating uses followed by every request kind as the final one '
+         '(including a refused sys/seal, requests addressing a mount of a child namespace with the parent '
+         "namespace's token, and a use-limited root token without ttl); two requests on a 1-use token at lock "
+         'granularity; non-trivial = distinct (scenario, observable outcome)',
  'assumptions': ['scheduling points: every operation reaching the physical backend + contended locks (vsync shim); '
                  'lease expiry is turned into an explicit drain step (recording expireFunc)',
                  'counted as authorised: backend operation-handler invocations + successful core-handled requests'],
